@@ -296,7 +296,7 @@ class NamesModule:
                 nbytes = r.choice([1, 1, 2, 4, 8, 3])
                 ty = r.choice(["UInt", "UInt", "Int", "UInt:%d" % (nbytes * 8)]) if i else "UInt"
                 if i == 0:
-                    nbytes = r.choice([1, 2, 4])
+                    nbytes = r.choice([1, 2, 4, 4, 8])
                 cls = "int" if ty == "Int" else "uint"
                 if r.random() < 0.25:
                     requires = True
@@ -354,29 +354,37 @@ class NamesModule:
                 off += cb
                 continue
             fields.append(dict(name=fname, kind="physical", requires=requires))
-        # conditional fields on the tag (switch pattern)
-        if tag is not None and r.random() < 0.5:
+        # conditional fields on the tag (switch pattern); either operand order: `tag == K` and `K == tag`
+        def cond(a, b):
+            if r.random() < 0.4:
+                self.features.add("condition-constant-on-left")
+                return "%s == %s" % (b, a)
+            return "%s == %s" % (a, b)
+        if tag is not None and r.random() < 0.65:
             tname, tbits = tag
             consts = [0, 1, 2, 3, 7, 2**tbits - 1]
             r.shuffle(consts)
-            chosen = consts[:r.randint(1, 3)]
-            if r.random() < 0.3:
+            chosen = consts[:r.randint(1, 4)]
+            if r.random() < 0.35:
                 chosen.append(chosen[0])              # repeated case label
             if tbits >= 32 and self.bad("switch-negative-label-on-unsigned", 0.06):
                 chosen.append(-1)
             for c in chosen:
                 fn = self.snake(used)
-                body.append("%s  if %s == %d:" % (indent, tname, c))
+                body.append("%s  if %s:" % (indent, cond(tname, str(c))))
                 body.append("%s    %d [+1]  UInt  %s" % (indent, off, fn))
                 fields.append(dict(name=fn, kind="physical", requires=False))
                 drv_fields.append(dict(name=fn, cls="uint"))
             off += 1
-        if enum_fields and r.random() < 0.4:
+        if enum_fields and r.random() < 0.55:
             fnm, ed = r.choice(enum_fields)
             ref = [x for x in my_enums if x[1] is ed][0][0]
-            for (vn, vv, va) in ed["values"][:2]:
+            evs = list(ed["values"][:3])
+            if r.random() < 0.35:
+                evs.append(evs[0])                    # repeated case label
+            for (vn, vv, va) in evs:
                 fn = self.snake(used)
-                body.append("%s  if %s == %s.%s:" % (indent, fnm, ref, vn))
+                body.append("%s  if %s:" % (indent, cond(fnm, "%s.%s" % (ref, vn))))
                 body.append("%s    %d [+1]  UInt  %s" % (indent, off, fn))
                 fields.append(dict(name=fn, kind="physical", requires=False))
                 drv_fields.append(dict(name=fn, cls="uint"))
